@@ -239,6 +239,8 @@ pub fn check(problem: &PProblem, solution: &Value, opts: &OracleOptions) -> Vec<
             f.push(Finding::new("C02:malformed-tour", here("no stops")));
             continue;
         }
+        let findings_before_tour = f.len();
+        let mut replay_undefined = false;
         // first stop: departure from the shift start
         let first = &stops[0];
         if first.loc != Some(shift.start_loc) || first.acts.first().map(|a| a.kind.as_str()) != Some("departure") {
@@ -254,24 +256,27 @@ pub fn check(problem: &PProblem, solution: &Value, opts: &OracleOptions) -> Vec<
             }
         }
 
-        // reload intervals: indices of stops which contain a reload activity
-        let is_reload = |s: &Stop| s.acts.iter().any(|a| a.kind == "reload");
-        let mut interval_of_stop = vec![0usize; stops.len()];
+        // reload intervals are counted per activity: an interval ends with a reload activity
+        let mut interval_of_act: Vec<Vec<usize>> = vec![];
         let mut cur = 0;
-        for (i, s) in stops.iter().enumerate() {
-            if is_reload(s) {
-                cur += 1;
+        for s in stops.iter() {
+            let mut v = vec![];
+            for a in &s.acts {
+                if a.kind == "reload" {
+                    cur += 1;
+                }
+                v.push(cur);
             }
-            interval_of_stop[i] = cur;
+            interval_of_act.push(v);
         }
         // static deliveries per interval (loaded at the interval start), static pickups stay till the interval end
         let static_delivery_of = |interval: usize| -> Vec<i64> {
             let mut load = vec![0i64; dims];
             for (i, s) in stops.iter().enumerate() {
-                if interval_of_stop[i] != interval {
-                    continue;
-                }
-                for a in &s.acts {
+                for (ai, a) in s.acts.iter().enumerate() {
+                    if interval_of_act[i][ai] != interval {
+                        continue;
+                    }
                     if let Some(job) = job_by_id.get(a.job_id.as_str()) {
                         if !job.is_dynamic() && (a.kind == "delivery" || a.kind == "replacement") {
                             if let Some(task) = job.tasks.iter().find(|t| t.kind.name() == a.kind) {
@@ -299,7 +304,7 @@ pub fn check(problem: &PProblem, solution: &Value, opts: &OracleOptions) -> Vec<
             }
         };
         check_capacity(&load, &mut f, "at departure");
-        if first.load != load && !first.load.is_empty() {
+        if !first.load.is_empty() && pad(&first.load, dims) != pad(&load, first.load.len()) {
             f.push(Finding::new("C03:load", here(&format!("departure stop reports load {:?}, replay gives {load:?}", first.load))));
         }
 
@@ -319,6 +324,7 @@ pub fn check(problem: &PProblem, solution: &Value, opts: &OracleOptions) -> Vec<
             .map(|o| o.to_string().contains("tour-order"))
             .unwrap_or(false);
         let mut matched_tasks: HashMap<String, HashSet<usize>> = HashMap::new();
+        let mut dynamic_on_board = vec![0i64; dims];
 
         for (si, stop) in stops.iter().enumerate() {
             let stop_loc = stop.loc.unwrap_or(prev_loc);
@@ -326,6 +332,8 @@ pub fn check(problem: &PProblem, solution: &Value, opts: &OracleOptions) -> Vec<
                 // travel
                 if matrix.unreachable(prev_loc, stop_loc) {
                     f.push(Finding::new("C01:unreachable-leg", here(&format!("leg {prev_loc}->{stop_loc} is flagged unreachable"))));
+                    // the matrix defines no travel time/distance for this leg: reported numbers cannot be replayed
+                    replay_undefined = true;
                 }
                 let travel = matrix.dur(prev_loc, stop_loc) * scale;
                 let expected_arrival = prev_departure + travel;
@@ -345,7 +353,7 @@ pub fn check(problem: &PProblem, solution: &Value, opts: &OracleOptions) -> Vec<
             }
             // activities
             let mut cur_time = if si == 0 { t0 } else { stop.arrival };
-            for a in &stop.acts {
+            for (ai, a) in stop.acts.iter().enumerate() {
                 let act_loc = a.loc.unwrap_or(stop_loc);
                 match a.kind.as_str() {
                     "departure" => {
@@ -402,7 +410,12 @@ pub fn check(problem: &PProblem, solution: &Value, opts: &OracleOptions) -> Vec<
                                 serving += end - start;
                                 cur_time = end;
                                 // new interval: pickups are unloaded, new deliveries loaded
-                                load = static_delivery_of(interval_of_stop[si]);
+                                // dynamic (shipment) load stays on board across a reload
+                                let mut next = static_delivery_of(interval_of_act[si][ai]);
+                                for d in 0..dims {
+                                    next[d] += dynamic_on_board[d];
+                                }
+                                load = next;
                                 check_capacity(&load, &mut f, "after reload");
                             }
                             None => f.push(Finding::new("C02:reload-not-defined", here("reload activity does not match a distinct reload of this shift"))),
@@ -500,11 +513,15 @@ pub fn check(problem: &PProblem, solution: &Value, opts: &OracleOptions) -> Vec<
                                 // load
                                 let demand = pad(&task.demand, dims);
                                 for d in 0..dims {
-                                    load[d] += match task.kind {
+                                    let change = match task.kind {
                                         TaskKind::Pickup => demand[d],
                                         TaskKind::Delivery => -demand[d],
                                         TaskKind::Replacement | TaskKind::Service => 0,
                                     };
+                                    load[d] += change;
+                                    if job.is_dynamic() {
+                                        dynamic_on_board[d] += change;
+                                    }
                                 }
                                 check_capacity(&load, &mut f, &format!("after job '{}'", job.id));
                             }
@@ -518,7 +535,9 @@ pub fn check(problem: &PProblem, solution: &Value, opts: &OracleOptions) -> Vec<
             if !stop.load.is_empty() && si > 0 {
                 // at the end of an interval static pickups are still on board: reported load is after departure
                 let reported = pad(&stop.load, dims);
-                let mut expected = load.clone();
+                // at the final arrival everything picked up is unloaded
+                let is_arrival = stop.acts.iter().any(|a| a.kind == "arrival");
+                let mut expected = if is_arrival { vec![0i64; dims] } else { load.clone() };
                 // the arrival stop reports what is left on board
                 expected.truncate(dims.max(reported.len()));
                 if reported[..dims.min(reported.len())] != expected[..dims.min(expected.len())] {
@@ -574,7 +593,25 @@ pub fn check(problem: &PProblem, solution: &Value, opts: &OracleOptions) -> Vec<
             let seq: Vec<String> = stops.iter().flat_map(|s| s.acts.iter().map(|a| a.job_id.clone())).collect();
             let positions: Vec<Option<usize>> = r.jobs.iter().map(|j| seq.iter().position(|x| x == j)).collect();
             if positions.iter().any(|p| p.is_none()) {
-                f.push(Finding::new("C01:relation-vehicle", here(&format!("relation jobs {:?} are not all in the tour of their vehicle", r.jobs))));
+                let wher: Vec<String> = r
+                    .jobs
+                    .iter()
+                    .zip(positions.iter())
+                    .filter(|(_, p)| p.is_none())
+                    .map(|(j, _)| {
+                        if unassigned_ids.contains(j) {
+                            format!("{j}: unassigned")
+                        } else if let Some(a) = assigned.get(j) {
+                            format!("{j}: in tour {}", a[0].0)
+                        } else {
+                            format!("{j}: nowhere")
+                        }
+                    })
+                    .collect();
+                // a job which could not be served at all is reported unassigned: only serving it elsewhere breaks the pinning
+                if wher.iter().any(|w| w.contains("in tour")) {
+                    f.push(Finding::new("C01:relation-vehicle", here(&format!("relation {:?}: {wher:?}", r.jobs))));
+                }
                 continue;
             }
             let pos: Vec<usize> = positions.into_iter().map(|p| p.unwrap()).collect();
@@ -618,6 +655,10 @@ pub fn check(problem: &PProblem, solution: &Value, opts: &OracleOptions) -> Vec<
         let parts_sum = driving + serving + waiting + break_time;
         if (parts_sum - duration).abs() > tol * n_legs + 1e-9 {
             f.push(Finding::new("C03:statistic-split", here(&format!("driving+serving+waiting+break = {parts_sum} != duration {duration}"))));
+        }
+        if replay_undefined {
+            let tail: Vec<Finding> = f.drain(findings_before_tour..).filter(|x| !x.rule.starts_with("C03:")).collect();
+            f.extend(tail);
         }
         for (i, key) in [["cost"].as_slice(), &["distance"], &["duration"], &["times", "driving"], &["times", "serving"], &["times", "waiting"], &["times", "break"], &["times", "commuting"], &["times", "parking"]].iter().enumerate() {
             sum[i] += num(key).unwrap_or(0.);
